@@ -110,9 +110,28 @@ def main():
     wd = os.getcwd()
     res = []
     # the clock runs forwards, and - the property quantifies over arbitrary clock values - backwards
-    for auto, tick in ((True, 7), (True, -7), (False, 7)):
+    for auto, tick, refusals_first in ((True, 7, False), (True, 7, True), (True, -7, True), (False, 7, True)):
         CLOCK[0] = 5000
-        f, e = build(os.path.join(wd, "sweep_%s_%d.nix" % (auto, tick)), auto)
+        f, e = build(os.path.join(wd, "sweep_%s_%d_%s.nix" % (auto, tick, refusals_first)), auto)
+        if refusals_first:
+            # calls that are REFUSED earlier in the session must leave stamping as it was switched
+            b = e["block"]
+            for bad in (lambda: b.create_data_array("bad1", "t", data=[1.0], label=5),
+                        lambda: b.create_data_array("bad2", "t", data=[1.0], unit="m\0V"),
+                        lambda: b.create_data_array("da", "t", data=[1.0]),
+                        lambda: b.create_tag("badtag", "t", "x"),
+                        lambda: b.create_multi_tag("badmt", "t", e["sec"]),
+                        lambda: b.create_data_frame("baddf", "t", col_dict={"a": int}, data=[("x",)]),
+                        lambda: b.create_group(5, "t"), lambda: b.create_source("src", "t"),
+                        lambda: f.create_block("b", "t"), lambda: f.create_section(5, "t"),
+                        lambda: setattr(e["da"], "unit", 5), lambda: e["da"].append("zz"),
+                        lambda: e["sec"].create_property("p", [3, "a"]), lambda: e["tag"].create_feature(e["sec"], "untagged"),
+                        lambda: e["g"].data_arrays.append(e["sec"]), lambda: e["host"].append_sampled_dimension(-1.0),
+                        lambda: e["da"].append_set_dimension(labels=5), lambda: e["da"].append_range_dimension(ticks=[3, 1])):
+                try:
+                    bad()
+                except Exception:
+                    pass
         for label, key, fn in cases(e):
             before = stamps(e)
             CLOCK[0] += tick
